@@ -10,3 +10,8 @@ import ZckModel.Range
 import ZckModel.Pred.C10
 import ZckModel.RangeLemmas
 import ZckModel.Props.C10
+import ZckModel.Sha.Spec
+import ZckModel.Sha.Bundled
+import ZckModel.Sha.Lemmas
+import ZckModel.Pred.C18
+import ZckModel.Props.C18
